@@ -3,10 +3,14 @@
 use crate::engine::PropDef;
 
 pub mod c01;
+pub mod c02;
+pub mod c03;
+pub mod c04;
+pub mod c05;
 
 /// All properties decided by the main `vcheck` binary (C18 lives in `vcheck_mip`).
 pub fn registry() -> Vec<PropDef> {
-    vec![c01::def()]
+    vec![c01::def(), c02::def(), c03::def(), c04::def(), c05::def()]
 }
 
 /// `vcheck serve`: execute operation descriptors sent by the other build profile (C17).
